@@ -278,6 +278,7 @@ func init() {
 			{Name: "fieldlens", TShards: 2, Run: lengthUnit("fasta")},
 			{Name: "parallel", Race: true, Run: codecParallel("fasta")},
 			{Name: "histories", Run: codecHistories("fasta")},
+			firstCallUnit(firstCodec("fasta")),
 		},
 	})
 }
